@@ -4,6 +4,7 @@ import (
 	"archive/tar"
 	"bytes"
 	"compress/gzip"
+	"encoding/base64"
 	"encoding/json"
 	"fmt"
 	"time"
@@ -49,6 +50,7 @@ type RealSpec struct {
 	MinOwn   int // minimum number of own layers
 	Arch     string
 	BuildArg bool // history lines carry a build argument
+	Inline   bool // the config descriptor and the layer descriptors carry their content as inline data
 }
 
 // RealResult is a generated real image with what the oracles need to know about it.
@@ -157,11 +159,18 @@ func (g *G) RealImageSpec(sp RealSpec) *RealResult {
 		"history": hist}
 	cb, _ := json.Marshal(cfg)
 	cblob := &Blob{Data: cb, Hosted: true, Desc: Desc{MediaType: cmt, Digest: regmodel.Digest(g.Alg, cb), Size: len(cb)}}
+	if sp.Inline {
+		cblob.Desc.Data = base64.StdEncoding.EncodeToString(cb)
+	}
 	n.Blobs = append(n.Blobs, cblob)
 	var lds []Desc
 	for _, l := range layers {
 		n.Blobs = append(n.Blobs, l.Blob)
-		lds = append(lds, l.Blob.Desc)
+		d := l.Blob.Desc
+		if sp.Inline && !l.Blob.External {
+			d.Data = base64.StdEncoding.EncodeToString(l.Blob.Data)
+		}
+		lds = append(lds, d)
 	}
 	fields := []kv{{"schemaVersion", 2}, {"mediaType", n.MediaType}, {"config", cblob.Desc}, {"layers", lds}}
 	annot := map[string]string{}
@@ -197,9 +206,13 @@ func (g *G) IndexWithAttestation(img *Node) *Node {
 	n := &Node{Kind: "index", MediaType: MTOCIIndex, Children: []*Node{img, att}}
 	p := plats[0]
 	img.Platform = &p
+	imgData, attData := "", ""
+	if g.InlineChildren {
+		imgData, attData = base64.StdEncoding.EncodeToString(img.Raw), base64.StdEncoding.EncodeToString(att.Raw)
+	}
 	ds := []Desc{
-		{MediaType: img.MediaType, Digest: img.Digest, Size: len(img.Raw), Platform: &p},
-		{MediaType: att.MediaType, Digest: att.Digest, Size: len(att.Raw), Platform: &Platform{"unknown", "unknown", ""},
+		{MediaType: img.MediaType, Digest: img.Digest, Size: len(img.Raw), Platform: &p, Data: imgData},
+		{MediaType: att.MediaType, Digest: att.Digest, Size: len(att.Raw), Platform: &Platform{"unknown", "unknown", ""}, Data: attData,
 			Annotations: map[string]string{"vnd.docker.reference.type": "attestation-manifest", "vnd.docker.reference.digest": img.Digest}},
 	}
 	n.Raw = g.marshal([]kv{{"schemaVersion", 2}, {"mediaType", n.MediaType}, {"manifests", ds}})
